@@ -6,6 +6,8 @@
   Model: AmiscModel.Interp (`wtsInit`, `wtsAdd`, `wtsExtend`, `rescaleWts`, `refine1`).
 -/
 import AmiscProofs.WeightsProofs
+import AmiscProps.C03
+import AmiscProps.C07
 
 namespace Amisc.C04
 
@@ -51,6 +53,87 @@ theorem refine_consistent_under_moving_bounds (C0 C : Q) (h0 : C0 ≠ 0) (xs pts
       rw [if_neg hlen]
       exact wtsInit_small C0 C xs hs
     rw [this, wtsExtend_wtsInit]
+
+
+/-! ## End to end: a feed-forward system of trained polynomial components IS the coupled polynomial system
+
+Glue of C01 (stored weights), C03 (component exactness at EVERY point — in particular at coupling values outside any guessed
+or moved coupling bounds), the state theorem above (`Lagrange.refine` leaves `wtsInit` states whatever the capacities were)
+and C07 (the system sweep is the composition, whatever the listing). -/
+
+open Amisc.SE Amisc.Tensor in
+/-- a trained component as `System.predict` sees it: named inputs / output, the request history that built its index set,
+    its nested grids and interpolator states, and the polynomial model `f` it was trained on -/
+structure TrainedComp where
+  name  : String
+  ins   : List String
+  out   : String
+  na    : ℕ
+  box   : Idx
+  rs    : List Idx
+  nodes : ℕ → List Q
+  gs    : ℕ → ℕ
+  st    : Idx → LState
+  f     : SE.PolyModel
+
+namespace TrainedComp
+open Amisc.SE Amisc.Tensor Polynomial
+
+/-- hypotheses of C03 for this component (`d` = number of inputs): well-typed history, nested grids of distinct nodes, states as
+    `Lagrange.refine` leaves them, model inside the sparse polynomial space of the active set reached -/
+structure OK (t : TrainedComp) : Prop where
+  wt     : C01.WT t.box t.rs
+  hbox   : t.box.length = t.na + t.ins.length
+  mono   : Monotone t.gs
+  nodup  : ∀ k, k < t.ins.length → (t.nodes k).Nodup
+  nested : Nested t.na t.ins.length t.nodes t.gs t.st (run t.box t.rs).active
+  space  : ∀ tm ∈ t.f, ∃ l ∈ (run t.box t.rs).active,
+      (∀ k, k < t.ins.length → (tm.2 k).degree < t.gs (Idx.nth l (t.na + k))) ∧
+      (∀ k, k < t.ins.length → t.gs (Idx.nth l (t.na + k)) ≤ (t.nodes k).length)
+
+/-- the component evaluated through its SURROGATE (`Component.predict`, training mode): weighted sum of the tensor terms -/
+noncomputable def surrogate (t : TrainedComp) : SComp :=
+  { name := t.name, ins := t.ins, outs := [t.out],
+    fn := fun e _ => (miscSum ((run t.box t.rs).active.map fun i =>
+      (((run t.box t.rs).ctrain.get i).getD 0, predictT 0 (t.st i) (rowsOfPoly (t.st i) t.f) (t.ins.map e)))).getD 0 0 }
+
+/-- the component evaluated through its MODEL -/
+noncomputable def model (t : TrainedComp) : SComp :=
+  { name := t.name, ins := t.ins, outs := [t.out], fn := fun e _ => t.f.evalAt t.ins.length (t.ins.map e) }
+
+theorem surrogate_eq_model (t : TrainedComp) (h : t.OK) : t.surrogate = t.model := by
+  unfold surrogate model
+  congr 1
+  funext e _
+  exact C03.trained_component_exact_train t.box t.rs h.wt h.hbox t.nodes t.gs h.mono h.nodup t.st h.nested t.f h.space
+    (t.ins.map e) (by simp)
+
+end TrainedComp
+
+/-- **A feed-forward system of trained components equals the system of their polynomial models at EVERY input** — for every
+    listing of the components and every training history of each of them (no assumption that coupling values stay inside
+    any bounds: C03 is exact outside the domain too). -/
+theorem trained_feedforward_system_eq_model_system (ts : List TrainedComp) (hok : ∀ t ∈ ts, t.OK) (x : Env) :
+    predictFF (ts.map TrainedComp.surrogate) x = predictFF (ts.map TrainedComp.model) x := by
+  have : ts.map TrainedComp.surrogate = ts.map TrainedComp.model :=
+    List.map_congr_left fun t ht => t.surrogate_eq_model (hok t ht)
+  rw [this]
+
+/-- … and therefore returns the true coupled solution of the polynomial system (exogenous inputs untouched, every coupling
+    variable and output equal to its polynomial evaluated at the upstream values), independent of the listing. -/
+theorem trained_feedforward_system_is_coupled_solution (ts : List TrainedComp) (hok : ∀ t ∈ ts, t.OK) (x : Env)
+    (hn : ((ts.map TrainedComp.model).map (·.name)).Nodup) (hu : UniqueProducers (ts.map TrainedComp.model))
+    (hnd : (ts.map TrainedComp.model).Nodup) (ha : C07.Acyclic (ts.map TrainedComp.model)) :
+    Sol (ts.map TrainedComp.model) x (predictFF (ts.map TrainedComp.surrogate) x) := by
+  rw [trained_feedforward_system_eq_model_system ts hok x]
+  refine C07.predictFF_is_coupled_solution _ hn hu ?_ hnd ha x
+  intro c hc e e' hee v
+  obtain ⟨t, _, rfl⟩ := List.mem_map.mp hc
+  simp only [TrainedComp.model]
+  congr 1
+  apply List.map_congr_left
+  intro w hw
+  exact hee w hw
 
 /-! non-vacuity: three nodes weighted under capacity 1/4, two more added under capacity 1/2 -/
 example : refine1 (1/2) (some ([1/2, 0, 1], wtsInit (1/4) [1/2, 0, 1])) [1/4, 3/4] =
